@@ -208,6 +208,23 @@ class AppMutator(BaseMutator):
         for mutator in self._mutators:
             sql.extend(mutator.to_sql())
 
+            if isinstance(mutator, SQLMutator):
+                # The signature and database state were reset above, and the
+                # model mutators re-simulate their mutations against them as
+                # they generate SQL. A mutation that only contributed SQL
+                # needs to be re-simulated here as well, or the mutators that
+                # follow would generate SQL (such as a table rebuild) from a
+                # signature that's missing its changes.
+                try:
+                    mutator.mutation.run_simulation(
+                        app_label=self.app_label,
+                        legacy_app_label=self.legacy_app_label,
+                        project_sig=self.project_sig,
+                        database_state=self.database_state,
+                        database=self.database)
+                except CannotSimulate:
+                    self.can_simulate = False
+
         self.finalize()
 
         return sql
